@@ -148,7 +148,10 @@ func (b *BaseStore) InitBaseStore(ipfs coreiface.CoreAPI, identity *identityprov
 
 	if options.EventBus == nil {
 		options.EventBus = eventbus.NewBus()
-	} else if err := b.SetBus(options.EventBus); err != nil {
+	}
+
+	// the deprecated emitter API must listen on the bus the store emits on
+	if err := b.SetBus(options.EventBus); err != nil {
 		return fmt.Errorf("unable set event bus: %w", err)
 	}
 	b.eventBus = options.EventBus
